@@ -159,7 +159,7 @@ var contextOperands = []string{"@contact.name", "@fields.age", "@contact.fields.
 	"@(contact.fields.age + 1)", "@results.pre.categories", intentResult, "@input", "@(\"a\" & )", "@contact.created_on",
 	"@(format_number(fields.age))", "@results.res", "@results.res.category", "@(repeat(\"ab\", 400))", "@contact.urns"}
 
-var textArgs = []string{"red", "blue", "red blue", "green", "", "the", "RED", "rouge", "azul", "@contact.name", "@(lower(\"RED\"))",
+var textArgs = []string{"red", "blue", "red blue", "green", "", "   ", "the", "RED", "rouge", "azul", "@contact.name", "@(lower(\"RED\"))",
 	"@(1/0)", "@contact.foo", "x @contact.foo", "yes", "no", "quick fox", "réd", "ｒｅｄ", "🙂", "@fields.gender", "light"}
 var numberArgs = []string{"5", "10", "23", "0", "@fields.age", "@(2 + 3)", "abc", "", "3.5", "-7", "1000", "@(1/0)", "12", "@contact.foo"}
 var dateArgs = []string{"2020-01-01", "@(today())", "@contact.created_on", "@(datetime_add(now(), 1, \"D\"))", "notadate", "2020-01-15",
@@ -224,6 +224,54 @@ func argsFor(r *hx.Rand, test string) []string {
 	}
 	// has_error, has_text, has_value, has_number, has_date, has_time, has_email, has_state and tests this table does not know
 	return []string{}
+}
+
+// padArg varies how an argument is WRITTEN without changing what it evaluates to (template evaluation trims the
+// template; a plain text and an expression producing that text evaluate alike) - or, for inner whitespace, changes it
+// in a way only the evaluated form shows.  Applies to base and to localized arguments, for every test.
+func padArg(r *hx.Rand, a string) string {
+	plain := !strings.ContainsAny(a, "@\"\\")
+	expr := a
+	if plain {
+		expr = "@(\"" + a + "\")"
+	}
+	switch r.Intn(10) {
+	case 0:
+		return " " + a
+	case 1:
+		return a + " "
+	case 2:
+		return "  " + a + "  "
+	case 3:
+		return "\t" + a
+	case 4:
+		return a + "\n"
+	case 5:
+		return "\n " + a + " \t"
+	case 6: // inner whitespace
+		if i := strings.Index(a, " "); i >= 0 {
+			return a[:i] + "  " + a[i+1:]
+		}
+		return a + " "
+	case 7: // the same text produced by an expression
+		return expr
+	case 8:
+		return " " + expr + " "
+	}
+	if plain && a != "" { // text + expression pieces
+		return " " + a[:len(a)/2] + "@(\"\")" + a[len(a)/2:]
+	}
+	return a + "  "
+}
+
+func maybePad(r *hx.Rand, args []string) []string {
+	if len(args) == 0 || !r.Chance(3, 10) {
+		return args
+	}
+	out := append([]string{}, args...)
+	k := r.Intn(len(out))
+	out[k] = padArg(r, out[k])
+	return out
 }
 
 type theme struct {
@@ -471,16 +519,42 @@ func genSwitch(r *hx.Rand, id int, ext bool) *Scenario {
 			prev := sc.Cases[r.Intn(i)]
 			c.Type, c.Args = prev.Type, append([]string{}, prev.Args...)
 		}
+		c.Args = maybePad(r, c.Args)
 		sc.Cases = append(sc.Cases, c)
 		for _, l := range []int{2, 3} {
 			test := c.Type
 			sc.Loc.set(langCodes[l], c.UUID, "arguments", genTranslation(r, len(c.Args), func() string {
 				a := argsFor(r, test)
+				v := ""
 				if len(a) == 0 {
-					return hx.Pick(r, textArgs)
+					v = hx.Pick(r, textArgs)
+				} else {
+					v = a[r.Intn(len(a))]
 				}
-				return a[r.Intn(len(a))]
+				if r.Chance(3, 10) {
+					v = padArg(r, v)
+				}
+				return v
 			}))
+		}
+	}
+	// often make the input exactly what a written-with-whitespace plain argument evaluates to, so that whitespace
+	// sensitive tests (has_only_text, has_pattern, has_category, has_group, ...) decide on the evaluated argument
+	if hasInput && len(sc.Cases) > 0 && r.Chance(1, 3) {
+		c := sc.Cases[r.Intn(len(sc.Cases))]
+		largs := c.Args
+		for _, l := range []int{2, 3} {
+			if tr := sc.Loc.get(langCodes[l], c.UUID, "arguments"); len(tr) == len(c.Args) && r.Chance(1, 2) {
+				largs = tr
+			}
+		}
+		if len(largs) > 0 && !strings.Contains(largs[0], "@") && strings.TrimSpace(largs[0]) != "" {
+			sc.Operand = "@input.text"
+			if sc.Resume == "msg" {
+				sc.ResumeText = strings.TrimSpace(largs[0])
+			} else {
+				sc.TriggerText = strings.TrimSpace(largs[0])
+			}
 		}
 	}
 	return sc
